@@ -24,7 +24,22 @@ type c05Prefix struct {
 
 // c05Replay re-runs the synchronous suffix of one recorded violation (replays/C05-*.json written by the
 // prefix x suffix part): mc C05 quick --replay <file>. Exit 1 + VIOLATION if it still fails.
+func c05IsSuffixReplay(file string) bool {
+	raw, err := os.ReadFile(file)
+	if err != nil {
+		return false
+	}
+	var doc struct {
+		Replay struct {
+			Config string   `json:"config"`
+			Prefix []string `json:"prefix"`
+		} `json:"replay"`
+	}
+	return json.Unmarshal(raw, &doc) == nil && doc.Replay.Config != "" && len(doc.Replay.Prefix) > 0
+}
+
 func c05Replay(r *ev.Reporter, file string) {
+	r.ReplayOnly = true
 	raw, err := os.ReadFile(file)
 	if err != nil {
 		ev.Broken("C05 replay: %v", err)
@@ -68,10 +83,10 @@ func c05Replay(r *ev.Reporter, file string) {
 }
 
 func c05(r *ev.Reporter, args []string) {
-	if len(args) == 2 && args[0] == "--replay" {
+	if len(args) == 2 && args[0] == "--replay" && c05IsSuffixReplay(args[1]) {
 		c05Replay(r, args[1])
 		return
-	}
+	} // (replay files of the other families, or of other shapes: the whole check is run again)
 	r.Rule = "prefix set = every canonical state of the deviation-bounded exploration (deliveries out of order, loss, duplicates, timer expiries, twin equivocation) x every crash set of size <= f; from each, the deterministic synchronous suffix (quorum-only FIFO delivery, timers at quiescence, leaders from the quorum) must let every quorum member commit a new block before view heal+3*ChainLength+2; plus the fault-free 12-view lock-step run for fixed/round-robin leaders; plus the isolation family (one replica cut off for k views under every cyclic leader pattern of period 4, then re-joined under three leader rotations: all commit within 3k+3*ChainLength+2 views); distinct = (prefix state, crash set)"
 	type run struct {
 		cfg     cluster.Config
